@@ -3,7 +3,7 @@
    (mcf_model_optimal_if_A_idle), with the premises that are still open listed explicitly. *)
 From Coq Require Import ZArith List Bool Lia ZifyBool.
 From Centro Require Import Base.Sx Base.EmdBase Spec.Emd Model.Emd Model.EmdCert Model.EmdMcf Model.EmdAsIs Model.EmdP
-  Proofs.EmdDuality Proofs.EmdMcfCert Proofs.EmdIndex Proofs.EmdOptimal Proofs.EmdNoWrap Proofs.EmdProgLL.
+  Proofs.EmdDuality Proofs.EmdMcfCert Proofs.EmdIndex Proofs.EmdOptimal Proofs.EmdNoWrap Proofs.EmdProgLL Proofs.EmdDist.
 Import ListNotations.
 Open Scope Z_scope.
 
@@ -74,6 +74,28 @@ Proof.
   destruct (mcf_model_optimal_if_A_idle (length e) c e st fl LC GC eq_refl SE RUN FL) as [A [B C]].
   exists st. split; [reflexivity|]. split; [exact E2|]. split; [exact E1|]. cbv zeta.
   split; [exact A|]. split; [exact B|exact C].
+Qed.
+
+(* the distance: below the bound and with the flag clear, the number min_cost_flow as written for int
+   returns IS the minimum cost of the graph it was given: it is the cost of a feasible flow and no
+   feasible flow is cheaper *)
+Theorem mcf_int32_returns_min_cost e c md x :
+  okp (min_cost_flow_p e c) = true ->
+  run wrap32 (min_cost_flow_p e c) = (0, md, x) ->
+  length c = length e ->
+  (forall l tc, In l c -> In tc l -> (fst tc < length e)%nat /\ 0 <= snd tc) ->
+  zsum e = 0 ->
+  forall r fl, mcf_iter_f ssp_levels (mcf_init e c) false = (r, fl) -> fl = false ->
+  let sk := sk_of c in
+  (exists f, (forall k, In k (idx sk) -> 0 <= f k) /\ (forall v, (v < length e)%nat -> gout sk f v = nz e v) /\ md = gcost sk f) /\
+  (forall g, (forall k, In k (idx sk) -> 0 <= g k) -> (forall v, (v < length e)%nat -> gout sk g v = nz e v) -> md <= gcost sk g).
+Proof.
+  intros OK RW LC GC SE r fl RUN FL. cbv zeta.
+  destruct (mcf_int32_optimal_below_bound e c md x OK RW LC GC SE r fl RUN FL) as [st [-> [_ [EM [A [B C]]]]]].
+  pose proof (dist_is_capflow_cost (length e) c LC GC e st fl eq_refl RUN FL) as D.
+  split.
+  - exists (capflow c (m_rb st)). split; [exact A|]. split; [exact B|]. rewrite EM. exact D.
+  - intros g G1 G2. rewrite EM, D. apply C; auto.
 Qed.
 
 (* end to end.  PROVED: below the bound (no_wrap_b, evaluated per case), a finished run of the int32
